@@ -498,6 +498,9 @@ def r63(ctx, res):
             face_vars = set()
             if it == "%s.convex_polygons" % sn and isinstance(lp.target, ast.Name):
                 face_vars.add(lp.target.id)
+            if it.startswith("enumerate(") and isinstance(lp.target, ast.Tuple) and len(lp.target.elts) == 2 \
+                    and isinstance(lp.target.elts[1], ast.Name):
+                face_vars.add(lp.target.elts[1].id)
             for st in lp.body:
                 if isinstance(st, ast.Assign) and isinstance(st.value, ast.Subscript) and txt(st.value.value) == "%s.convex_polygons" % sn:
                     face_vars.add(txt(st.targets[0]))
